@@ -15,7 +15,7 @@ ToSet(s) == {s[i] : i \in 1..Len(s)}
 
 TInit == /\ tid \in 1..Len(Traces)
          /\ l = 1 /\ sil = 0
-         /\ InitWith(Traces[tid].cfg.maxT, Traces[tid].cfg.minT, ToSet(Traces[tid].cfg.gated))
+         /\ InitWithCap(Traces[tid].cfg.maxT, Traces[tid].cfg.minT, ToSet(Traces[tid].cfg.gated), Traces[tid].cfg.qcap)
          /\ TLCSet(tid, 1)
 
 \* always comparable
@@ -53,7 +53,7 @@ Consume == /\ l <= Len(T.ev)
 
 \* client steps that have no event of their own in the implementation
 Silent == /\ l <= Len(T.ev) /\ sil < 3
-          /\ \E c \in Clients : S4(c) \/ P3(c) \/ P4(c) \/ P5(c) \/ P6(c)
+          /\ \E c \in Clients : S4(c) \/ P3(c) \/ P4(c) \/ P5(c) \/ P6(c) \/ (E1(c) /\ ~HasRoom)     \* (the last: acquire, then block in put)
           /\ l' = l /\ tid' = tid /\ sil' = sil + 1
 
 TNext == Consume \/ Silent
